@@ -1,4 +1,5 @@
 pub mod checks;
+pub mod cli;
 pub mod content;
 pub mod crypt;
 pub mod env;
